@@ -30,11 +30,12 @@ def config_part(ctx, prefixes, key):
     rng = random.Random(ctx.seed + 17)
     hist = D.gen_histories(rng, ctx.tier)
     traces = [D.run_history(i0, ops, how=k, first_setup=fs) for k, (i0, ops, fs) in enumerate(hist)]
-    can = copy.deepcopy(next(t for t in traces if any(e["e"] == "setup" and e["obs"]["pool"][0] == "disl" for e in t[1:])))
-    for e in can[1:]:
-        if e["e"] == "setup" and e["obs"]["pool"][0] == "disl":
-            e["obs"]["pool"] = ["disl", "a2" if e["obs"]["pool"][1] == "a1" else "a1", e["obs"]["pool"][2]]
-            break
+    # binding self-test: a hand-written history whose logged site-pool stamp names the OTHER matrix volume (independent of the code under test)
+    i0 = dict(vmA="a1", vmB="b1", gamma="g1", site="dislocations", gbe="e1", grain="d1", disl="r1", x0="x1", bulk="auto", shape="sphere",
+              vmB2="b1", gamma2="g1", site2="bulk", shape2="sphere", np=1)
+    can = [{"e": "init", "inp": i0}, {"e": "set", "field": "gamma", "arg": "g2"},
+           {"e": "setup", "obs": {"pool": ["disl", "a2", "r1"], "factors": ["spherical nucleus"], "gibbs": ["g2", "b1", "sphere"], "x": ["x1"],
+                                  "pool2": ["absent"], "factors2": ["absent"], "gibbs2": ["absent"]}}]
     reached, r = T.validate("ModelConfig_Trace", CONSTS + ["  MaxOps = 0", '  Mode = "fixed"'], traces + [can], key + "_modelconfig")
     ctx.add_tlc(r, "ModelConfig_Trace over %d configuration histories" % len(traces))
     if r.violated or reached is None:
